@@ -50,7 +50,7 @@ def run(seed: int, perm: int, n: int) -> list[str]:
         p = Point(**dict(items))
         mk = lambda: wire.build_raw(c["e"])  # noqa: E731
         res.append(fmt(call(lambda: mk().at(p))))
-        for x in names[:2] + ["w"]:
+        for x in [wire.fresh_str(n) for n in names[:2]] + ["w"]:
             res.append(fmt(call(lambda: sm.Partial(mk(), x).at(p))))
             res.append(fmt(call(lambda: sm.LocatedDifferential(mk(), p).component(x))))
             res.append(fmt(call(lambda: sm.Differential(mk(), compute_early=True).at(p).component(x), timeout=30)))
